@@ -69,4 +69,75 @@ theorem structOfComplex_ok (P : Prog) (m : Option String) (p : CProps)
           simp only [structOfComplex, ht]
           exact nsLookup_of_mem_abbr _ _ (Props.C03.c03_prefixes_declared t p.fields f hf ha ns hft)
 
+
+/-- the wrapper struct of a simple type declares its own prefix; its single member carries none -/
+theorem structOfSimple_ok (P : Prog) (m : Option String) (p : SProps) : structOK P (structOfSimple m p) = true := by
+  unfold structOK
+  rw [Bool.and_eq_true]
+  constructor
+  · cases ht : p.tns with
+    | none => simp [structOfSimple, ht, bound]
+    | some t => simp [structOfSimple, ht, bound, nsLookup]
+  · simp only [structOfSimple]
+    split
+    · simp [fieldOK]
+    · split <;> simp [fieldOK]
+
+/-- no member of a namespace in a type without target namespace (DESIGN.md 2.1) -/
+def NoneOK (p : CProps) : Prop := p.tns = none → ∀ f ∈ p.fields, f.isAttribute = false → f.tns = none
+
+def NodeOK (n : RNode) : Prop :=
+  match n.rtype with
+  | .complex p => NoneOK p
+  | .element { etype := .complex cp, .. } => NoneOK cp
+  | _ => True
+
+theorem structsOfNode_ok (P : Prog) (n : RNode) (h : NodeOK n) : ∀ sd ∈ structsOfNode n, structOK P sd = true := by
+  intro sd hsd
+  unfold structsOfNode at hsd
+  unfold NodeOK at h
+  split at hsd
+  · rename_i p hp
+    simp only [hp] at h
+    simp only [List.mem_singleton] at hsd
+    subst hsd
+    exact structOfComplex_ok P _ p h
+  · split at hsd
+    · cases hsd
+    · simp only [List.mem_singleton] at hsd
+      subst hsd
+      exact structOfSimple_ok P _ _
+  · rename_i xn cp hp
+    simp only [hp] at h
+    simp only [List.mem_singleton] at hsd
+    subst hsd
+    exact structOfComplex_ok P _ cp h
+  · cases hsd
+
+theorem structOK_leaf_irrelevant (P : Prog) (sd : StructD) (g : FieldD → Leaf) (h : structOK P sd = true) :
+    structOK P { sd with fields := sd.fields.map fun f => { f with leaf := g f } } = true := by
+  unfold structOK at h ⊢
+  rw [Bool.and_eq_true] at h ⊢
+  refine ⟨h.1, ?_⟩
+  rw [List.all_eq_true] at h ⊢
+  intro f hf
+  simp only [List.mem_map] at hf
+  obtain ⟨f0, hf0, rfl⟩ := hf
+  have := h.2 f0 hf0
+  unfold fieldOK at this ⊢
+  simpa using this
+
+/-- **the whole derive input of a document declares what it uses**: for every document whose types without
+    target namespace have no namespaced members, `Ya.progOf d` meets `declared` — so, by
+    `c03_every_prefix_declared`, every value of every struct generated for it serialises to namespace-well-formed
+    XML -/
+theorem progOf_declared (d : Doc) (h : ∀ n ∈ d.nodes, NodeOK n) : declared (progOf d) = true := by
+  unfold declared
+  rw [List.all_eq_true]
+  intro sd hsd
+  unfold progOf at hsd
+  simp only [List.mem_map, List.mem_flatMap] at hsd
+  obtain ⟨sd0, ⟨n, hn, hsd0⟩, rfl⟩ := hsd
+  exact structOK_leaf_irrelevant _ sd0 _ (structsOfNode_ok _ n (h n hn) sd0 hsd0)
+
 end ZeepVerif.Lemmas.YaOfDoc
